@@ -16,7 +16,7 @@
    overlap areas of cell c with the rectangles rs (by C18_ov_common_region each term is the
    area of the common region; for pairwise disjoint rs it is the area of c inside the shape). *)
 From FrameModel Require Import Num.QcTac Geometry.Rect Alloc.Alloc Alloc.Initial Alloc.InitialGeom
-  Alloc.InitialFacts.
+  Alloc.InitialFacts Alloc.InitialHist Cases.CmpC03 Cases.CmpC03Hist.
 Open Scope list_scope.
 Open Scope Qc_scope.
 
@@ -118,3 +118,77 @@ Theorem C03_hypotheses_satisfiable :
   compatible Ex.sq Ex.R [Ex.F1] Ex.mods /\ well_placed Ex.R [Ex.F1] Ex.mods.
 Proof. exact (conj Ex.compatible_ex Ex.well_placed_ex). Qed.
 Print Assumptions C03_hypotheses_satisfiable.
+
+(* ---------------------------------------------------------------------------------------
+   Object histories (Alloc/InitialHist.v): the netlist and the die are mutable objects that
+   may have been read, relabelled, allocated and moved / resized in place or through setters
+   before the allocation is computed.  The theorems above quantify over ALL R, Fx, mods; the
+   statements below say that the values the objects have when the call is made are all that
+   an allocation depends on.
+   --------------------------------------------------------------------------------------- *)
+
+(* every allocation of every operation sequence (reads, create_stog, earlier allocations, moves
+   and resizes by attribute assignment or setter, module-centre writes - which drag along the
+   square create_square aliased to the centre -, recenter_rectangles) is initial_allocation of
+   the values the modules have at that moment *)
+Theorem C03_hist_allocs_current : forall sqrt_o feps ceps aeps seps saeps R Fx ops ms,
+  Forall (fun s => match s with (st, inc0, res) =>
+            res = initial_allocation sqrt_o feps ceps aeps inc0 R Fx (map hbase st) end)
+         (run_nhist sqrt_o feps ceps aeps seps saeps R Fx ms ops).
+Proof. exact nhist_allocs_current. Qed.
+Print Assumptions C03_hist_allocs_current.
+
+(* the same netlist allocated twice / a die that was already used: the state an allocation leaves
+   behind (a square for every module without rectangles, as far as create_squares got) gives the
+   same allocation again, whatever the option *)
+Theorem C03_alloc_twice : forall sqrt_o feps ceps aeps R Fx inc0 ms,
+  initial_allocation sqrt_o feps ceps aeps inc0 R Fx (map hbase (squares_partial sqrt_o ms)) =
+  initial_allocation sqrt_o feps ceps aeps inc0 R Fx (map hbase ms).
+Proof. exact ia_twice. Qed.
+Print Assumptions C03_alloc_twice.
+
+Theorem C03_hist_alloc_twice : forall sqrt_o feps ceps aeps seps saeps R Fx inc0 inc1 ms,
+  match run_nhist sqrt_o feps ceps aeps seps saeps R Fx ms [NAlloc inc0; NAlloc inc1] with
+  | [(_, _, _); (_, _, r2)] => r2 = alloc_result sqrt_o feps ceps aeps R Fx inc1 ms
+  | _ => False
+  end.
+Proof. exact nhist_alloc_twice. Qed.
+Print Assumptions C03_hist_alloc_twice.
+
+(* recenter_rectangles moves every rectangle of the module by one vector *)
+Theorem C03_recenter_rigid : forall h h', recenter h = Some h' ->
+  exists dx dy, mrects (hbase h') = map (translate dx dy) (mrects (hbase h)).
+Proof. exact recenter_rigid. Qed.
+Print Assumptions C03_recenter_rigid.
+
+(* on a rectangle whose centre object is not shared, writing the attributes of the Point and giving
+   the rectangle a new Point are the same operation *)
+Theorem C03_mech_irrelevant_unshared : forall sqrt_o feps ceps aeps seps saeps R Fx ms mi ri x y h,
+  nth_error ms mi = Some h -> hshared h = false ->
+  apply_nop sqrt_o feps ceps aeps seps saeps R Fx ms (NMoveRect WInPlace mi ri x y) =
+  apply_nop sqrt_o feps ceps aeps seps saeps R Fx ms (NMoveRect WSetter mi ri x y).
+Proof. exact mech_irrelevant_unshared. Qed.
+Print Assumptions C03_mech_irrelevant_unshared.
+
+(* a history on which the checker of the correspondence passes, with the aliasing visible:
+   allocate, move the centre of the squared module in place, move a hard module in place, allocate *)
+Theorem C03_hist_example :
+  nhist_check Ex.sq Ex.feps Ex.ceps Ex.aeps (qc 1 1000000) (qc 1 1000) Ex.R [Ex.F1]
+    [mkH ExH.S0 false; mkH ExH.Hm false; mkH ExH.Fm false]
+    [ (NAlloc false, false,
+       NOAccept [0; 0; 0; 0]%Z
+         [ mkCell ExH.fx [("F1"%string, 1)] 0%nat; mkCell Ex.A [] 0%nat; mkCell Ex.B [] 0%nat;
+           mkCell Ex.C [("S"%string, qc 3 8); ("H"%string, qc 1 4)] 0%nat ],
+       [mkH (ExH.S1 (qc 7 2)) true; mkH ExH.Hm false; mkH ExH.Fm false]);
+      (NSetCenter WInPlace 0 (qc 3 1) (qc 2 1), false, NONone,
+       [mkH (ExH.S1 (qc 3 1)) true; mkH ExH.Hm false; mkH ExH.Fm false]);
+      (NProbe, false, NONone, [mkH (ExH.S1 (qc 3 1)) true; mkH ExH.Hm false; mkH ExH.Fm false]);
+      (NMoveRect WInPlace 1 0 (qc 5 2) (qc 1 2), false, NONone,
+       [mkH (ExH.S1 (qc 3 1)) true; mkH ExH.H2 false; mkH ExH.Fm false]);
+      (NAlloc false, false,
+       NOAccept [0; 0; 0; 0]%Z
+         [ mkCell ExH.fx [("F1"%string, 1)] 0%nat; mkCell Ex.A [] 0%nat; mkCell Ex.B [] 0%nat;
+           mkCell Ex.C [("S"%string, qc 1 2); ("H"%string, qc 1 4)] 0%nat ],
+       [mkH (ExH.S1 (qc 3 1)) true; mkH ExH.H2 false; mkH ExH.Fm false]) ] = true.
+Proof. exact ExH.hist_ex. Qed.
+Print Assumptions C03_hist_example.
